@@ -111,6 +111,13 @@ def run(ctx):
     ncompose = 0
     for i in range(60 if ctx.quick else 1200):
         w, dump = gen_dump(rnd, allow_zero_tid=(i % 4 != 0))
+        try:        # a listing that raises on a legal dump prints no lines at all
+            for api in ('formatted_kevents', 'formatted_traces', 'formatted_callstacks'):
+                listing(api, dump.blob, (True,) * 6, False)
+        except Exception as ex:
+            ctx.violation('C14/raised/%s' % type(ex).__name__, '%s raised %r on a legal dump (thread map %s)' % (api, ex, dump.tmap),
+                          {'kind': 'pipeline', 'file_hex': dump.blob.hex(), 'stream': describe(w, dump.stream)})
+            continue
         if i % (6 if ctx.quick else 3) == 0:
             for api in ('formatted_kevents', 'formatted_traces', 'formatted_callstacks'):
                 ncompose += check_compose(ctx, api, dump, w, ctx.quick)
@@ -181,7 +188,8 @@ def run(ctx):
         ctx.violation('C14/%s/formatted_traces' % cl, 'dump %s: %s %s' % (oid, cl, r.get('err', '')),
                       {'kind': 'pipeline', 'file_hex': dump.blob.hex(), 'stream': describe(w, dump.stream)})
     ctx.evaluations = ncompose + nv
-    ctx.sample({'lines': listing('formatted_traces', info['f0'][1].blob, (True, True, True, True, True, True), False)[:3]})
+    if info:
+        ctx.sample({'lines': listing('formatted_traces', next(iter(info.values()))[1].blob, (True,) * 6, False)[:3]})
     ctx.extra['code'] = {'dumps': len(obs), 'configurations_rendered': ncompose, 'log_lines_checked': nlog[0]}
     ctx.assumptions += ['trailing whitespace of a line is not compared (pygments strips it)',
                         'plain event listing: thread map only, an in-stream-declared thread may be unknown or its '
